@@ -187,6 +187,8 @@ def flowir_spec(draw):
     # through an explicit manifest (layout "file": target -> [spelling of the source, method])
     layout = draw(st.sampled_from(["dir", "dir", "file"]))
     folders = draw(st.lists(st.sampled_from(FOLDERS), min_size=0, max_size=4, unique=True))
+    if "lib" in folders and "Lib" not in folders and draw(st.booleans()):
+        folders.append("Lib")          # names that differ only in case
     dirs = {}
     for f in folders:
         dirs[f] = {fn: "%s/%s\n" % (f, fn) for fn in draw(st.lists(st.sampled_from(FILES), min_size=1, max_size=2,
